@@ -40,7 +40,7 @@ func (n *InfluxDBOutNode) Build(db *pipeline.InfluxDBOutNode) (ast.Node, error) 
 	}
 	sort.Strings(tags)
 	for _, k := range tags {
-		n.Dot("tag", k, db.Tags[k])
+		n.DotZeroValueOK("tag", k, db.Tags[k])
 	}
 
 	return n.prev, n.err
